@@ -109,6 +109,13 @@ fn select_in_word_ctz(x: u64, k: u32) -> u32 {
     }
 }
 
+/// Verification hook: direct entry to the CTZ fallback.
+#[cfg(feature = "verif-hooks")]
+#[inline]
+pub fn verif_select_in_word_ctz(x: u64, k: u32) -> u32 {
+    select_in_word_ctz(x, k)
+}
+
 /// Select the k-th set bit using broadword/SWAR algorithm.
 ///
 /// This implementation uses the broadword/SWAR technique from Vigna's paper.
